@@ -78,6 +78,24 @@ def run(ctx, out):
             for f in faults + (["garbage:04ff0117", "garbage:060f00"] if a.is_ack[j] else []):
                 ops.append(G.op_line(cfg, calls, G.script_str(cfg, None, {(0, j): f})))
                 meta.append((cfg, a, j, f, "single"))
+    # a LATE answer: the terminal pauses 7 s before every packet and 70 s before item j — longer than every time-out of the client (60 s
+    # handshake / packet, 17 s read_card) — and then carries on as if nothing had happened. The client has given the connection up by
+    # then; whatever arrives later must find it closed (nothing more is written on it), and the retry runs on a new, vetted connection.
+    # The same against a chatty terminal (two intermediate statuses before every final packet).
+    def chatty(cfg):
+        a0 = G.Abs(spec, cfg, {}, None, None)
+        return {kind: [[P.intermediate(), P.intermediate()] + a0.replies(kind)] * 60 for kind in ("06c0", "0693", "0650", "0622", "0623", "0625")}
+    for calls, mx in HISTORIES:
+        cfg = G.default_cfg(max=mx)
+        for q in (None, chatty(cfg)):
+            a = baseline(spec, cfg, calls, q)
+            for j in range(len(a.trigger)):
+                ops.append(G.op_line(cfg, calls, G.script_str(cfg, q, {(0, j): "late:9"}) + " gap=7"))
+                meta.append((cfg, a, j, "late answer", "single"))
+                if q is not None:
+                    for f in faults:
+                        ops.append(G.op_line(cfg, calls, G.script_str(cfg, q, {(0, j): f})))
+                        meta.append((cfg, a, j, f, "single"))
     # wrong serial on the first connection(s): never used for commands
     for calls, mx in HISTORIES[:2]:
         cfg = G.default_cfg(max=mx)
@@ -145,7 +163,7 @@ def run(ctx, out):
         if why:
             out.oracle_failures.append({"op": o, "observed": r[:600], "expected": "see what", "key": o[:300], "what": why})
     out.rule = (f"{len(HISTORIES)} call histories (start-up, read card, begin/commit/cancel over one and two tokens, configure, each followed by a further operation) x a single fault {faults} (and, where an acknowledgement is due, a well-formed intermediate status / completion instead) at EVERY item the terminal sends on the first "
-                "connection (handshake included); wrong / case-different serial; identity request answered with an abort (5 codes); refused and stalled connection attempts; sampled multi-fault sequences over 4 connections (half of them against a terminal pausing 3 s / 7 s before every packet). Oracle on the terminal's per-connection log: the failed "
+                "connection (handshake included); the same faults against a chatty terminal (two intermediate statuses before every final packet: faults BETWEEN two reply packets); a LATE answer at every item (the terminal pauses 7 s before every packet and 70 s before that item — past every time-out of the client — and then carries on: the abandoned connection must be closed and see nothing more); wrong / case-different serial; identity request answered with an abort (5 codes); refused and stalled connection attempts; sampled multi-fault sequences over 4 connections (half of them against a terminal pausing 3 s / 7 s before every packet). Oracle on the terminal's per-connection log: the failed "
                 "connection carries exactly the fault-free prefix and nothing after the failure, every other connection starts with registration (configured password, currency) + identity check, one failure => exactly one reconnect "
                 "(the replacement is reused). implementation = model exactly (incl. virtual time stamps)")
     out.samples = [ops[7][:400], {"op": ops[-1][:300], "impl": impl[-1][:400]}]
